@@ -219,6 +219,11 @@ class World08(World):
         r = self.add_slot(op, kind, v, s.lineage, s.route + [label], parent=s)
         r.decoded = s.decoded
         r.normalized = s.normalized
+        if r.snap != s.snap:
+            # a value that changes when it is copied, pickled or marshalled does not behave as a value
+            loc = fp.diff_path(s.snap, r.snap) or "?"
+            self.violate("V7-reload-differs", label, loc, {"route": s.route})
+            return None
         self.faults_fired += 1
         self.identity_loss += 1
         self.count("fault_identity_loss_" + label)
@@ -236,9 +241,13 @@ class World08(World):
     def op_deepcopy_data(self, op, rng):
         # identity-PRESERVING control
         s = self.slots[op["in"][0]]
-        r = self.add_slot(op, "data", copy.deepcopy(s.value), s.lineage, s.route + ["deepcopy_data"], parent=s)
+        which = op.get("how", "deepcopy")
+        r = self.add_slot(op, "data", copy.deepcopy(s.value) if which == "deepcopy" else copy.copy(s.value), s.lineage, s.route + ["deepcopy_data"], parent=s)
         r.decoded = s.decoded
         r.normalized = s.normalized
+        if r.snap != s.snap:
+            self.violate("V7-reload-differs", which, fp.diff_path(s.snap, r.snap) or "?", {"route": s.route})
+            return None
         self.count("control_deepcopy")
         self.event("deepcopy_data", op["id"])
         self.enter_pool(r)
@@ -301,6 +310,12 @@ class World08(World):
         if e[0] != "ok" or e[1] is not True:
             self.violate("V2-not-reflexive", rs, "self", {"route": r.route, "out": repr(e)[:100]})
             return
+        # comparisons with foreign objects: never an exception, never equal, != consistent
+        for foreign in (None, 0, "x", (), 1.5, object()):
+            out = sched._outcome(lambda: (v == foreign, foreign == v, v != foreign))
+            if out[0] != "ok" or out[1] != (False, False, True):
+                self.violate("V2-foreign-comparison", rs, type(foreign).__name__, {"out": repr(out)[:120]})
+                return
         # immutability of every dataclass instance inside (sampled by position)
         parts = []
         walk_dataclasses(v, parts)
@@ -743,7 +758,7 @@ def run_c08(seed, tree, tier, known):
         elif k == "clone":
             new = w.execute({"op": "clone", "in": [base.id]}, rng)
         elif k == "deepcopy_data":
-            new = w.execute({"op": "deepcopy_data", "in": [base.id]}, rng)
+            new = w.execute({"op": "deepcopy_data", "in": [base.id], "how": rng.choice(["deepcopy", "copy"])}, rng)
         elif k == "marshal_decode":
             s, cop = rng.choice(codes)
             if s.id in w.slots:
